@@ -73,6 +73,12 @@ func c06SeqKinds() []seqKind {
 			}
 			return &gen.EGroup{X: &gen.EBin{Op: "..", L: num(3), R: num(3 + n - 1)}}, nil
 		}, 8},
+		{"range-bare", func(n int) (gen.Expr, map[string]interface{}) {
+			if n == 0 {
+				return &gen.EArr{}, nil
+			}
+			return &gen.EBin{Op: "..", L: num(3), R: num(3 + n - 1)}, nil
+		}, 8},
 		{"[]int", func(n int) (gen.Expr, map[string]interface{}) {
 			return nm("seq"), map[string]interface{}{"seq": mkInts(n)}
 		}, 8},
